@@ -101,6 +101,7 @@ func describe(b []byte) string {
 // ---------------------------------------------------------------- store wrapper
 
 type stStore struct {
+	closed bool
 	dir    string
 	capMB  uint64
 	node   [32]byte
@@ -122,6 +123,15 @@ func stOpen(dir string, capMB uint64, node [32]byte) (*stStore, error) {
 	if err != nil {
 		return nil, err
 	}
+	// NewStorage can panic (a size record shorter than 8 bytes, written through content id = node id): close the
+	// database and let the panic through with its own message
+	defer func() {
+		if r := recover(); r != nil {
+			waitPruneGoroutines()
+			_ = db.Close()
+			panic(r)
+		}
+	}()
 	cs, err := spebble.NewStorage(storage.PortalStorageConfig{StorageCapacityMB: capMB, NodeId: node, NetworkName: "verif"}, db)
 	if err != nil {
 		db.Close()
@@ -146,6 +156,10 @@ func waitPruneGoroutines() {
 }
 
 func (s *stStore) close() {
+	if s.closed {
+		return
+	}
+	s.closed = true
 	if s.pruned {
 		waitPruneGoroutines()
 	}
@@ -185,7 +199,7 @@ func (s *stStore) scan() (held uint64, rec string) {
 	for it.First(); it.Valid(); it.Next() {
 		if bytes.Equal(it.Key(), storage.SizeKey) {
 			v := it.Value()
-			if len(v) == 8 && v[0] < 0x40 {
+			if len(v) == 8 {
 				rec = strconv.FormatUint(binary.BigEndian.Uint64(v), 10)
 			} else {
 				rec = "x" + describe(v)
@@ -487,6 +501,15 @@ func stCorpus(c *Ctx, kind string) {
 	}
 	ops = append(ops, stOp{kind: 'r'})
 	stHistory(c, kind, 1, z, ops)
+	// excluded case content id = node id: an 8-byte value overwrites the size record, the counter reloaded from it
+	// is an arbitrary uint64 (here above 2^63); everything must still compare exactly
+	zid := make([]byte, 32)
+	stHistory(c, kind, 1, z, []stOp{
+		{kind: 'p', id: key32(3, 3), val: stVal{long: true, vid: 500, n: 20000}},
+		{kind: 'p', id: zid, val: stVal{raw: []byte{0x85, 0x80, 0xa7, 0x60, 0x61, 0xb7, 0x29, 0x50}}},
+		{kind: 'g', id: zid}, {kind: 'r'},
+		{kind: 'p', id: key32(4, 4), val: stVal{long: true, vid: 501, n: 30000}}, {kind: 'g', id: zid},
+		{kind: 'p', id: zid, val: stVal{raw: []byte{0xfe, 0, 0, 0, 0, 0, 0, 1}}}, {kind: 'r'}, {kind: 'g', id: key32(3, 3)}})
 	// empty history, reopen of an empty store
 	stHistory(c, kind, 1, z, []stOp{{kind: 'r'}, {kind: 'g', id: key32(1, 1)}})
 	// a value larger than the capacity
